@@ -377,9 +377,11 @@ def _exec_random(chunk, arg):
     return sink, strays, n
 
 
-def gen_scripts(chk, maxlen, maxhandles, classes, maxkids, name):
+def gen_scripts(chk, maxlen, maxhandles, classes, maxkids, name, ops=None, modes=("plain", "detached", "unique"),
+                dupmodes=("attached", "detached"), atoms=(0, 1)):
     mod, cfg = inst.instance("I_LegacyScripts", "LegacyScripts",
-                             dict(MaxLen=maxlen, MaxHandles=maxhandles, GenClasses=set(classes), MaxKids=maxkids, Ops=set(ALLOPS)),
+                             dict(MaxLen=maxlen, MaxHandles=maxhandles, GenClasses=set(classes), MaxKids=maxkids, Ops=set(ops or ALLOPS),
+                                  Modes=set(modes), DupModes=set(dupmodes), Atoms=set(atoms)),
                              invariants=["EmitInv"])
     (chk.wd / "I_LegacyScripts.tla").write_text(mod)
     r = tlc.run(chk.wd, "I_LegacyScripts", cfg, workers=core.NPROC, timeout=3000, heap="8g")
@@ -427,6 +429,11 @@ def run(chk: core.Check, pid: str, classify):
         raws += gen_scripts(chk, 3, 3, ["LLeaf", "LSub", "LOpt", "LList"], 2, "len3-b")
     else:
         raws += gen_scripts(chk, 4, 4, ["LLeaf", "LUnary"], 1, "len4-small")
+    # focused families: long programs over few operations (detach / re-attach / duplicate chains; replacements in tuples)
+    raws += gen_scripts(chk, 6, 5, ["LLeaf", "LUnary"], 1, "focus-detach", ops={"create", "detach", "attach", "duplicate"},
+                        modes=("plain",), dupmodes=("attached",), atoms=(0,))
+    raws += gen_scripts(chk, 5 if quick else 6, 4, ["LLeaf", "LMany"], 2, "focus-replace",
+                        ops={"create", "replace_with", "replace_with_none", "detach"}, modes=("plain",), atoms=(0,))
     chk.replayed += len(raws)
     sink, strays = collect(chk, core.parallel(_exec, raws, {}, chunk=400))
     rng = random.Random(chk.seed + 61)
@@ -553,8 +560,10 @@ def finding_id_twin_nested(ln, outcome, clause):
                 return None
             if (r["par"], r["pf"], r["pi"]) in holders.get(n, []):
                 continue
-            if any(S[q]["idc"] == pr["idc"] for q, _, _ in holders.get(n, [])):
-                explained += 1
+            below: set = set()
+            _subtree(S, r["par"], below)
+            if any(S[q]["idc"] == pr["idc"] and q in below for q, _, _ in holders.get(n, [])):
+                explained += 1          # the real holder is the recorded parent's id twin nested below it
                 continue
             if clause == "parent-back-link":
                 return None
